@@ -104,8 +104,8 @@ Section xplain_run.
   Variables thr gd ms : N.
   Variable sh : shape.
   Variable rd : N -> N.
-  Variables pm fv fd : bool.
-  Let C := xplain thr gd ms sh rd pm fv fd.
+  Variable pm : bool.
+  Let C := xplain thr gd ms sh rd pm.
   Let c := plain thr gd ms sh.
 
   Lemma x_watch_off f pos o X : x_watch C f pos o X = X.
@@ -541,12 +541,12 @@ Section xplain_run.
 End xplain_run.
 
 (* ---------------------------------------------------------------- whole runs *)
-Theorem xrun_forest thr gd ms sh rd pm fv fd : forall f, all_xtimed thr gd ms sh rd pm fv fd f -> heights (map strip f) <= ms ->
-  xout (snd (xexec (xplain thr gd ms sh rd pm fv fd) (flat_map xflat f) xstart)) =
-  flat_map (xrecs (xplain thr gd ms sh rd pm fv fd) thr gd 0) f.
+Theorem xrun_forest thr gd ms sh rd pm : forall f, all_xtimed thr gd ms sh rd pm f -> heights (map strip f) <= ms ->
+  xout (snd (xexec (xplain thr gd ms sh rd pm) (flat_map xflat f) xstart)) =
+  flat_map (xrecs (xplain thr gd ms sh rd pm) thr gd 0) f.
 Proof.
   intros f HT Hh.
-  destruct (xrun_kids thr gd ms sh rd pm fv fd f) with (s := init) (hk := @nil bool) (X := xinit) (d := 0)
+  destruct (xrun_kids thr gd ms sh rd pm f) with (s := init) (hk := @nil bool) (X := xinit) (d := 0)
     as (s' & X' & E & A & XA); try reflexivity.
   - clear. induction f as [|k r IH]; constructor; [|exact IH]. apply xrun_call.
   - exact HT.
